@@ -560,12 +560,13 @@ fn payload(len: usize, seed: usize) -> Vec<u8> {
 fn run_c14<C, I>(
     codec: C,
     conv: bool,
+    duplex: Option<usize>,
     fields: &[&str],
     make: fn(Vec<u8>) -> I,
     classify: fn(&<C as Encoder<I>>::Error) -> &'static str,
 ) -> String
 where
-    C: Decoder + Encoder<I> + Clone,
+    C: Decoder + Encoder<I> + Clone + Unpin,
     <C as Encoder<I>>::Error: From<io::Error>,
 {
     let int = |t: &str| t[1..].parse::<usize>().expect("number");
@@ -590,7 +591,21 @@ where
             })
             .collect()
     };
-    let mock = Mock { ws, fs: fa(fields[1]), ss: fa(fields[2]), ..Mock::default() };
+    let mut mock = Mock { ws, fs: fa(fields[1]), ss: fa(fields[2]), ..Mock::default() };
+    if let Some(seed) = duplex {
+        // duplex use: the peer sends while we write — a read script of chunks, Pendings, an I/O error or an early EOF
+        for j in 0..6 {
+            let h = ((seed * 31 + j) as u64).wrapping_mul(0x9E3779B97F4A7C15) >> 40;
+            mock.rd.push_back(match h % 6 {
+                0 => Rd::Pending,
+                1 => Rd::Chunk(b"ab\ncd".to_vec()),
+                2 => Rd::Chunk(payload(1 + (h as usize >> 4) % 3000, j)),
+                3 => Rd::Chunk(vec![0, 2, 65, 66, 0]),
+                4 if j > 3 => Rd::Err,
+                _ => Rd::Chunk(b"\n".to_vec()),
+            });
+        }
+    }
     let mut framed = Framed::new(mock, codec);
     let waker = Waker::from(Arc::new(NoopWake));
     let mut cx = Context::from_waker(&waker);
@@ -598,6 +613,13 @@ where
     for (k, tok) in split_nonempty(fields[3], ',').into_iter().enumerate() {
         if conv {
             framed = convert(framed, k);
+        }
+        if let Some(seed) = duplex {
+            // reads on the same Framed between the Sink calls: they must leave what is buffered for writing alone
+            let h = ((seed * 131 + k) as u64).wrapping_mul(0x9E3779B97F4A7C15) >> 40;
+            for _ in 0..(h % 3) {
+                let _ = Pin::new(&mut framed).poll_next(&mut cx);
+            }
         }
         let r: Poll<Result<(), <C as Encoder<I>>::Error>> = match tok.as_bytes()[0] {
             b'x' => {
@@ -669,16 +691,21 @@ fn c14(line: &str) -> String {
         Some(c) => (c, true),
         None => (f[0], false),
     };
+    let (codec, duplex) = match codec.split_once("+r") {
+        Some((c, sd)) => (c, Some(sd.parse::<usize>().expect("+r<seed>"))),
+        None => (codec, None),
+    };
     match codec {
         "lines" => run_c14::<LinesCodec, String>(
             LinesCodec::default(),
             conv,
+            duplex,
             &f[1..],
             |p| String::from_utf8(p).unwrap(),
             classify_io,
         ),
-        "bytes" => run_c14::<BytesCodec, Bytes>(BytesCodec, conv, &f[1..], Bytes::from, classify_io),
-        "lp" => run_c14::<LpCodec, Vec<u8>>(LpCodec { default_eof: false }, conv, &f[1..], |p| p, |e| match e {
+        "bytes" => run_c14::<BytesCodec, Bytes>(BytesCodec, conv, duplex, &f[1..], Bytes::from, classify_io),
+        "lp" => run_c14::<LpCodec, Vec<u8>>(LpCodec { default_eof: false }, conv, duplex, &f[1..], |p| p, |e| match e {
             LpError::Io(e) => classify_io(e),
             LpError::TooLong => "enc",
             _ => "other",
